@@ -380,6 +380,129 @@ def _shape(f, op):
     return (f.get("shape") if f else "?") + (":kw" if op.get("kw") else "")
 
 
+SACL_H = """#ifndef SACL_H
+#define SACL_H
+struct Sacl { int nitems; int *ivalue; double *dvalue; int tag; };
+typedef struct Sacl Sacl;
+#ifdef __cplusplus
+extern "C" {
+#endif
+Sacl *sacl_global(void);
+void sacl_refill(int base);
+void sacl_resize(int n);
+int sacl_sum(void);
+#ifdef __cplusplus
+}
+#endif
+#endif
+"""
+SACL_C = """#include "sacl.h"
+static int iv[8]; static double dv[8];
+static Sacl g = { 4, iv, dv, 7 };
+Sacl *sacl_global(void) { static int once = 0; if (!once) { sacl_refill(1); once = 1; } return &g; }
+void sacl_refill(int base) { int i; for (i = 0; i < 8; i++) { iv[i] = base + i; dv[i] = base * 0.5 + i; } }
+void sacl_resize(int n) { g.nitems = n; }
+int sacl_sum(void) { int i, s = g.tag; for (i = 0; i < g.nitems; i++) s += iv[i]; return s; }
+"""
+SACL_PY = """import json, sys
+sys.path.insert(0, '.')
+import sacl as m
+def out(k, v):
+    print('OUT %d %s' % (k, json.dumps(v)), flush=True)
+s = m.sacl_global()
+out(0, [s.nitems, list(s.ivalue), list(s.dvalue), s.tag])
+m.sacl_refill(10)                      # the library changes the arrays behind the object
+out(1, [list(s.ivalue), list(s.dvalue)])
+m.sacl_resize(2)                       # ... and the member the dimension depends on
+out(2, [s.nitems, list(s.ivalue)])
+s.nitems = 3                           # the caller changes it through the object
+out(3, [list(s.ivalue), m.sacl_sum()])
+x = s.ivalue
+x[0] = 999                             # a list handed out earlier is a copy
+out(4, [list(s.ivalue)])
+s.tag = 100
+out(5, [m.sacl_sum(), s.tag])
+t = m.sacl_global()                    # a second object for the same struct
+m.sacl_refill(20)
+out(6, [list(t.ivalue), list(s.ivalue)])
+"""
+
+
+def sacl_expected():
+    iv = lambda b: [b + i for i in range(8)]
+    dv = lambda b: [b * 0.5 + i for i in range(8)]
+    return {0: [4, iv(1)[:4], dv(1)[:4], 7], 1: [iv(10)[:4], dv(10)[:4]], 2: [2, iv(10)[:2]], 3: [iv(10)[:3], 7 + sum(iv(10)[:3])],
+            4: [iv(10)[:3]], 5: [100 + sum(iv(10)[:3]), 100], 6: [iv(20)[:3], iv(20)[:3]]}
+
+
+def run_struct_class(case):
+    """Struct wrapped as a Python class with list-mode array members (struct.yaml Cstruct_list): a read / library-side
+    change / read history.  Expected values come from a model of the ten-line library."""
+    from .. import shroudrun
+    lang = case["lang"]
+    res = {"violations": [], "stats": {}, "name": "sacl-" + lang}
+    y = {"library": "sacl", "cxx_header": "sacl.h", "language": lang,
+         "options": {"wrap_c": False, "wrap_fortran": False, "wrap_python": True, "wrap_lua": False, "PY_struct_arg": "class", "PY_array_arg": "list"},
+         "declarations": [{"decl": "struct Sacl { int nitems; int *ivalue +dimension(nitems); double *dvalue +dimension(nitems); int tag; };"},
+                          {"decl": "Sacl *sacl_global(void)"}, {"decl": "void sacl_refill(int base)"}, {"decl": "void sacl_resize(int n)"},
+                          {"decl": "int sacl_sum(void)"}]}
+    sp = {"name": "sacl", "files": {"work/sacl.yaml": workloads.dump_yaml(y)}, "dirs": ["out"], "argv": ["--outdir", "out", "--logdir", "out", "work/sacl.yaml"],
+          "monitors": [], "keep": True}
+    rr = shroudrun.run(sp)
+    cwd = rr.get("cwd")
+    try:
+        if rr.get("exc") or rr.get("exit") != 0:
+            k_, t_ = engine.reject_mech(rr)
+            res["violations"].append({"mech": "shroud-rejects-admitted-library:" + k_, "detail": "struct-as-class list library: " + t_})
+            return res
+        out = os.path.join(cwd, "out")
+        open(os.path.join(out, "sacl.h"), "w").write(SACL_H)
+        open(os.path.join(out, "sacl_impl.c"), "w").write(SACL_C)
+        open(os.path.join(out, "drv.py"), "w").write(SACL_PY)
+        pys = sorted(f for f in os.listdir(out) if f.startswith("py") and f.endswith((".c", ".cpp")))
+        objs = []
+        for f in ["sacl_impl.c"] + pys:
+            cc = ["g++", "-std=c++11"] if f.endswith(".cpp") else ["gcc", "-std=c99"]
+            rc, so, se = engine.sh(cc + ["-c", "-fPIC", "-g", "-O0", "-w", "-I", PYINC, "-I", "."] + engine.SANF + [f, "-o", f + ".o"], out)
+            if rc != 0:
+                where, msg = engine.first_error(se)
+                res["violations"].append({"mech": "extension-does-not-compile:%s" % msg, "detail": "sacl %s\n%s" % (f, se[:2000])})
+                return res
+            objs.append(f + ".o")
+        rc, so, se = engine.sh((["g++"] if lang == "c++" else ["gcc"]) + ["-shared"] + engine.SANF + objs + ["-o", "sacl.so"], out)
+        if rc != 0:
+            res["violations"].append({"mech": "extension-does-not-link", "detail": se[:1500]})
+            return res
+        env = dict(os.environ)
+        env.update({"ASAN_OPTIONS": "detect_leaks=0:halt_on_error=1:abort_on_error=0", "UBSAN_OPTIONS": "print_stacktrace=1:halt_on_error=1",
+                    "LD_PRELOAD": subprocess.check_output(["gcc", "-print-file-name=libasan.so"], text=True).strip(), "PYTHONDONTWRITEBYTECODE": "1"})
+        rc, so, se = engine.sh([common.PY, "drv.py"], out, env=env, timeout=300)
+        outs = {}
+        for ln in so.split("\n"):
+            if ln.startswith("OUT "):
+                _, k, js = ln.split(" ", 2)
+                outs[int(k)] = json.loads(js)
+        for rp in buildfarm.sanitizer_reports(se):
+            gen, libf = buildfarm.classify_frames(rp["frames"], set(os.listdir(out)))
+            res["violations"].append({"mech": "sanitizer:%s:%s" % (rp["kind"], _n(gen or libf or "-")), "detail": "sacl\n%s" % rp["text"]})
+        exp = sacl_expected()
+        what = {0: "first read", 1: "read after the library changed the arrays", 2: "read after the library changed the extent member",
+                3: "read after the caller changed the extent member", 4: "read after a returned list was modified", 5: "scalar member set",
+                6: "two objects for the same struct"}
+        for k, want in exp.items():
+            res["stats"]["struct_class_steps"] = res["stats"].get("struct_class_steps", 0) + 1
+            if k not in outs:
+                res["violations"].append({"mech": "struct-as-class:step-not-reached", "detail": "sacl step %d (%s)\n%s" % (k, what[k], se[-1200:])})
+                break
+            if outs[k] != want:
+                res["violations"].append({"mech": "struct-as-class:member-value-differs:%s" % what[k].replace(" ", "-"),
+                                          "detail": "sacl [%s] step %d (%s): got %r, the struct holds %r" % (lang, k, what[k], outs[k], want)})
+        return res
+    finally:
+        if cwd:
+            common.rmtree(cwd)
+
+
 def main(rec):
     thorough = common.tier() == "thorough"
     r = common.rng("c03")
@@ -433,6 +556,16 @@ def main(rec):
             rec.samples.append(rr["sample"])
         for v in rr["violations"]:
             rec.violation(v["mech"], v["detail"], {"lib": c["lib"]["name"]})
+    # struct wrapped as a class with list-mode array members
+    sc = [{"lang": "c"}, {"lang": "c++"}]
+    sres = pool.run_cases("vf.checks.c03", sc, func="run_struct_class", timeout=900)
+    for c, rr in zip(sc, sres):
+        if "stats" not in rr:
+            workloads.bad_run(rec, {"name": "sacl-" + c["lang"]}, rr)
+            continue
+        rec.merge_stats(rr["stats"])
+        for v in rr["violations"]:
+            rec.violation(v["mech"], v["detail"], {"case": "struct-as-class", "language": c["lang"]})
     # upstream unit tests of the numpy-free configurations, extension built with ASan+UBSan
     pc = [{"name": n} for n in buildfarm.PYTHON_TARGETS]
     pres = pool.run_cases("vf.buildfarm", pc, func="python_corpus_job", timeout=1500)
